@@ -1,12 +1,17 @@
 import Rawr.Proofs.FenSound2
+import Rawr.Proofs.FenRound
 import Rawr.Generated.StartPos
 /-! # C07 : the FEN parser accepts only structurally valid positions, and all valid ones
 
 (a) soundness, for ALL strings and BOTH arithmetics (`Arith.wrap` = optimised build: wrapping `u8`
 arithmetic, masked shifts; `Arith.trap` = checked build): an accepted string yields a position
-satisfying V.1–V.8 of DESIGN.md §4 (`StructurallyValid`, defined in `Rawr/Proofs/FenSound2.lean`). -/
+satisfying V.1–V.8 of DESIGN.md §4 (`StructurallyValid`, defined in `Rawr/Proofs/FenSound2.lean`).
+(b) exactness and (c) completeness: for every valid absolute position `a` and each spelling of the castling
+field (X-FEN, Shredder file letters, `KQkq`), `set_fen (Spec.printFen a st) = Ok (rel a)` in BOTH
+arithmetics — the string is accepted, the result is the position it spells out, and `wrap`/`trap` agree.
+The bridge hypothesis `hchk` (C08d) is discharged in `Rawr/Props/C07_full.lean` (`C07c_complete`). -/
 namespace Rawr
-open Position
+open Position Spec FenC
 
 /-! ## (a) soundness -/
 
@@ -92,8 +97,81 @@ full-move number 0. -/
 example : setFen .wrap true "4k3/8/8/8/8/8/8/R3K3 w E - 0 1".toList = none ∧
     setFen .wrap false "4k3/8/8/8/8/8/8/4K3 w - - 0 0".toList = none := by decide +kernel
 
+/-! ## (b) exactness, (c) completeness -/
+
+/-- **C07(b,c).** Let `a` be a valid absolute position (`Spec.Valid`: V.2–V.7) with pieces only on the 64
+squares and counters below `2^31`; let `st` be any of the three spellings of the castling field, where the
+`KQkq` spelling is only meaningful if every right's rook is the outermost one on its wing
+(`AllOutermost`; without it `K` denotes another rook — see the example in `Rawr/Proofs/FenCastle.lean`).
+Then in both arithmetics and for either value of the `frc` flag, `set_fen` accepts the printed FEN and
+returns exactly `rel a frc` (boards, side, rights with the rook files of the present rights, the defaults
+7,0,7,0 for the absent ones — `rel` uses the same defaults —, en-passant square, counters, recomputed key).
+`hchk` is V.4 in the form `validate` tests it (the model's `isSqAttacked`); it follows from
+`Spec.Valid a` by C08d. -/
+theorem C07c_accepts (ar : Arith) (a : APos) (frc : Bool) (st : CastleStyle)
+    (hV : Spec.Valid a = true) (hboard : ∀ s, 64 ≤ s → a.board s = none)
+    (hh : a.half < 2147483648) (hf : a.full < 2147483648)
+    (hst : st = .kqkq → AllOutermost a)
+    (hchk : (rel a frc).isSqAttacked (lsb ((rel a frc).c1 &&& (rel a frc).p5)) false = false) :
+    setFen ar frc (printFen a st) = some (rel a frc) :=
+  setFen_printFen a frc ar st hV hboard hh hf hst hchk
+
+/-- **C07(b)**: on well-formed input no `u8` operation overflows — the two builds agree. -/
+theorem C07b_arith_agree (a : APos) (frc : Bool) (st : CastleStyle)
+    (hV : Spec.Valid a = true) (hboard : ∀ s, 64 ≤ s → a.board s = none)
+    (hh : a.half < 2147483648) (hf : a.full < 2147483648)
+    (hst : st = .kqkq → AllOutermost a)
+    (hchk : (rel a frc).isSqAttacked (lsb ((rel a frc).c1 &&& (rel a frc).p5)) false = false) :
+    setFen .wrap frc (printFen a st) = setFen .trap frc (printFen a st) := by
+  rw [C07c_accepts .wrap a frc st hV hboard hh hf hst hchk, C07c_accepts .trap a frc st hV hboard hh hf hst hchk]
+
+/-- **C07(b)**: the accepted position denotes exactly the absolute position the string spells out. -/
+theorem C07b_exact (ar : Arith) (a : APos) (frc : Bool) (st : CastleStyle)
+    (hV : Spec.Valid a = true) (hboard : ∀ s, 64 ≤ s → a.board s = none)
+    (hh : a.half < 2147483648) (hf : a.full < 2147483648)
+    (hst : st = .kqkq → AllOutermost a)
+    (hchk : (rel a frc).isSqAttacked (lsb ((rel a frc).c1 &&& (rel a frc).p5)) false = false) :
+    ∃ p, setFen ar frc (printFen a st) = some p ∧ abs p = a ∧ p.frc = frc ∧ StructurallyValid p := by
+  have h := C07c_accepts ar a frc st hV hboard hh hf hst hchk
+  exact ⟨_, h, abs_rel a frc hboard, rel_frc a frc, C07a_sound ar frc _ _ h⟩
+
+/-- the position every FEN of a position of the engine's domain is read to: for a `ValidPos p`, all three
+spellings of `abs p` are accepted and give back `p` (castle files of absent rights reset to the defaults). -/
+theorem C07c_domain (ar : Arith) (p : Position) (st : CastleStyle) (hV : ValidPos p = true)
+    (hst : st = .kqkq → AllOutermost (abs p))
+    (hchk : p.isSqAttacked (lsb (p.c1 &&& p.p5)) false = false) :
+    setFen ar p.frc (printFen (abs p) st) = some (normCf p) := by
+  obtain ⟨hC, hVa, hh, hf, hk⟩ := validPos_split hV
+  have hrel : rel (abs p) p.frc = normCf p := rel_abs' p hC hk
+  rw [← hrel]
+  apply C07c_accepts ar (abs p) p.frc st hVa (absBoard_ge p) hh hf hst
+  rw [hrel]; exact hchk
+
+/-- the full statement: as `C07c_accepts` without the hypothesis `hchk`, which is the C08d bridge. -/
+def C07c_full : Prop :=
+  ∀ (ar : Arith) (a : APos) (frc : Bool) (st : CastleStyle), Spec.Valid a = true →
+    (∀ s, 64 ≤ s → a.board s = none) → a.half < 2147483648 → a.full < 2147483648 →
+    (st = .kqkq → AllOutermost a) → setFen ar frc (printFen a st) = some (rel a frc)
+
+/-- what C08d has to supply: on the engine's domain the model's attack test agrees with `Spec.Valid`'s
+"side not to move is not in check". -/
+def C07_C08d_bridge : Prop :=
+  ∀ p : Position, ValidPos p = true → p.isSqAttacked (lsb (p.c1 &&& p.p5)) false = false
+
+theorem C07c_full_of (H : C07_C08d_bridge) : C07c_full :=
+  fun ar a frc st hV hb hh hf hst =>
+    C07c_accepts ar a frc st hV hb hh hf hst (H _ (validPos_rel a frc hV hb hh hf))
+
+/-! non-vacuity of (b,c): `Rawr/Props/C07Examples.lean` (the absolute start position satisfies every
+hypothesis of `C07c_accepts`, in all three styles). -/
+
 #print axioms C07a_sound
 #print axioms C07a_parity
 #print axioms C07a_validate_iff
 #print axioms C07a_letter
+#print axioms C07c_accepts
+#print axioms C07b_arith_agree
+#print axioms C07b_exact
+#print axioms C07c_domain
+#print axioms C07c_full_of
 end Rawr
